@@ -12,7 +12,10 @@ property holds in full:
   pour and refill transactions (any clients, values, timestamps): every client's window counter `≤ periodic_limit`, the
   global counter `≤ global_limit`;
 * `pour_le_faucet_balance` — a successful pour never exceeds the faucet's balance, which decreases by exactly the amount;
-* `pour_ok_spec`, `step_inv` — the single step.
+* `pour_ok_spec`, `step_inv` — the single step;
+* `pour_respects_limits_in_force`, `updateSettings_spec` — with `update-settings` in play (the owner may lower a limit
+  below what has already gone out; `Used` is kept): every pour that succeeds leaves `Used ≤` the limits in force at that
+  pour, in ANY state; `lowered_limit_blocks_witness` shows the scenario.
 The counters are per-window sums by construction (`globalVars`/`userVars` reset them to 0 exactly when the window has
 elapsed); the harness oracle checks the window sums on the implementation directly and keeps the signatures
 `periodic-limit-exceeded`, `global-limit-exceeded` and their `…-beyond-one-request` forms active.
@@ -100,6 +103,44 @@ theorem pour_ok_spec {st st' : St} {c v a : Nat} {now : Int} (h : pour st c v no
               have e2 := addCoin_ok htg
               refine ⟨rfl, rfl, ⟨bal, hbal, by omega, rfl⟩, by omega, by omega, by simp only; omega, ?_⟩
               simp only [e1]
+
+theorem lookup_upsert {α} (l : List (Nat × α)) (k : Nat) (v : α) : lookup (upsert l k v) k = some v := by
+  induction l with
+  | nil => simp [upsert, lookup]
+  | cons a l ih =>
+    obtain ⟨k', v'⟩ := a
+    unfold upsert
+    split
+    · simp [lookup]
+    · rename_i hne
+      unfold lookup at ih ⊢
+      rw [List.find?_cons_of_neg (by simpa using hne)]
+      exact ih
+
+/-- **pour_respects_limits_in_force.** Whatever the state — in particular after the owner has LOWERED a limit below
+what has already gone out in the running window (`update-settings` keeps `Used`) — a pour that succeeds leaves the
+client's window counter `≤` the periodic limit in force at that pour and the global counter `≤` the global limit in
+force: while `Used ≥ limit` no further (non-zero) pour can succeed. -/
+theorem pour_respects_limits_in_force {st st' : St} {c v a : Nat} {now : Int} (h : pour st c v now = .ok st' a) :
+    (∃ u, lookup st'.users c = some u ∧ u.used = a + (userVars st c now).used ∧ u.used ≤ st.conf.periodic) ∧
+    st'.gUsed = a + (globalVars st now).1 ∧ st'.gUsed ≤ st.conf.global ∧ st'.conf = st.conf := by
+  obtain ⟨hc, _, _, hper, hglob, hg, hu⟩ := pour_ok_spec h
+  refine ⟨⟨_, by rw [hu]; exact lookup_upsert _ _ _, rfl, hper⟩, hg, by rw [hg]; exact hglob, hc⟩
+
+/-- `update-settings` changes the configuration only for the owner and only to a valid one, and keeps `Used`. -/
+theorem updateSettings_spec {st st' : St} {c a : Nat} {conf' : Conf} {now : Int} (h : updateSettings st c conf' now = .ok st' a) :
+    c = ownerId ∧ conf'.valid = true ∧ st'.conf = conf' ∧ st'.users = st.users ∧ st'.gUsed = (globalVars st now).1 ∧
+    st'.faucet = st.faucet ∧ a = 0 := by
+  unfold updateSettings at h
+  simp only at h
+  split at h
+  · cases h
+  · rename_i hc
+    split at h
+    · rename_i hv
+      injection h with h1 h2; subst h1 h2
+      exact ⟨by simpa using hc, hv, rfl, rfl, rfl, rfl, rfl⟩
+    · cases h
 
 /-- **pour_le_faucet_balance.** -/
 theorem pour_le_faucet_balance {st st' : St} {c v a : Nat} {now : Int} (h : pour st c v now = .ok st' a) :
@@ -207,6 +248,21 @@ theorem eleven_pours_capped_witness :
     (match pour st 1 100000000000 1700000011 with
       | .ok _ a => a == 100000000000
       | _ => false) = true := by decide +kernel
+
+/-- the owner lowers the periodic and global limits to 100 ZCN after client 1 has received 990 ZCN: the window keeps
+`Used = 990 ZCN`; every further pour in that window — by that client and, for the global limit, by any other — is refused;
+after the individual window has elapsed client 1 can pour again (the global window still blocks until it elapses). -/
+theorem lowered_limit_blocks_witness :
+    let st := run (init shipped (some 100000000000000000) []) (elevenPours.take 10)
+    let low : Conf := ⟨10000000000, 1000000000000, 1000000000000, 1000000000000, 10800000000000, 172800000000000⟩
+    (match updateSettings st 7 low 1700000100 with
+     | .ok st' _ =>
+        st'.gUsed == 9900000000000 && lookup st'.users 1 == some { start := 1700000000, used := 9900000000000 } &&
+        pour st' 1 1 1700000101 == .err .periodicLimit && pour st' 2 1 1700000101 == .err .globalLimit &&
+        pour st' 1 1 (1700000000 + 10800) == .err .globalLimit &&
+        (match pour st' 2 5 (1700000000 + 172800) with | .ok _ a => a == 5 | _ => false)
+     | _ => false) = true ∧
+    updateSettings st 3 low 1700000100 = .err .notOwner := by decide +kernel
 
 /-- the limits are attainable exactly (the theorem is tight): 10 × 99 + 10 = 1000 ZCN. -/
 example :
